@@ -47,6 +47,10 @@ def cases(draw):
         "tail": draw(st.sampled_from(["newline", "newline", "no_newline", "write_no_newline", "aug_write_no_newline"])),
         # MethodObject on a function nested in a method, with class members following that method
         "nested_target": draw(st.booleans()),
+        # the class sits inside a module-level compound statement (try / if): indented, yet its scope's parent is the module
+        "class_in_block": draw(st.sampled_from([None, None, "try", "if"])),
+        # the function UseFunction works on is a one-liner / the last thing of a file without final newline
+        "fn_layout": draw(st.sampled_from(["normal", "normal", "one_line", "last_no_newline"])),
     }
 
 
@@ -61,6 +65,13 @@ def render(case):
         fn += "    t = %s\n    return t\n" % body
     else:
         fn += "    return %s\n" % body
+    layout = case.get("fn_layout", "normal") if case["refactoring"] == "use_function" else "normal"
+    fn_module = None
+    if layout == "one_line" and not case["body_has_local"]:
+        fn = "def compute(a, b): return %s\n" % body
+    if layout == "last_no_newline":
+        fn_module = fn.rstrip("\n")  # the function ends its own module, which has no final newline
+        fn = "from fn import compute\n"
     lib = "k = 2\n" + fn
     lib += "class Box:\n    def __init__(self, v):\n        self.val = v\n        self.other = 1\n"
     lib += "    def bump(self, d):\n"
@@ -70,7 +81,17 @@ def render(case):
     lib += "        return tmp + m + (self.val - self.other)\n" if case["self_read_in_expr"] else "        return tmp + m\n"
     if case["subclass"]:
         lib += "class SubBox(Box):\n    def bump(self, d):\n        self.val = self.val - d\n        return self.val\n"
+    blk = case.get("class_in_block")
+    if blk and case["refactoring"] in ("factory", "factory_global") and not case["subclass"]:
+        i = lib.index("class Box:")
+        cls_text = "".join("    " + ln + "\n" for ln in lib[i:].rstrip("\n").split("\n"))
+        if blk == "try":
+            lib = lib[:i] + "try:\n" + cls_text + "except ImportError:\n    Box = None\n"
+        else:
+            lib = lib[:i] + "if k:\n" + cls_text + "else:\n    Box = None\n"
     files = {"lib.py": lib}
+    if fn_module is not None:
+        files["fn.py"] = fn_module
     st_ = case["import_style"]
     imp = {"module": ("import lib\n", "lib."), "from": ("from lib import Box, compute, k\n", ""), "module_as": ("import lib as L\n", "L.")}[st_]
     texts = {"lib": "", "use": imp[0], "use2": imp[0]}
@@ -224,7 +245,11 @@ def evaluate(case, env):
                 off = lib.index("tmp")
                 changes = LocalToField(project, res, off).get_changes()
             else:
-                off = lib.index("def compute") + 4
+                if "fn.py" in files:
+                    res = project.get_file("fn.py")
+                    off = files["fn.py"].index("def compute") + 4
+                else:
+                    off = lib.index("def compute") + 4
                 changes = UseFunction(project, res, off).get_changes()
         except rex.RopeError:
             out.refused += 1
@@ -243,7 +268,7 @@ def evaluate(case, env):
         if bad:
             out.violation("C17:does_not_compile:" + r, "%s\n%s" % (bad[0], where))
             return out
-        each = runner.import_each(new_files, only=("lib.py", "use.py", "use2.py"))
+        each = runner.import_each(new_files, only=tuple(p_ for p_ in ("lib.py", "use.py", "use2.py", "fn.py") if p_ in new_files))
         broken = {p: e for p, e in each.items() if e}
         if broken:
             out.violation("C17:module_does_not_import:%s:%s" % (r, sorted(broken.values())[0]), "%s\n%s" % (broken, where))
